@@ -405,6 +405,16 @@ static void run_dtostre(char *line) {
     char *r = SCPI_dtostre(d, buf, size, prec, flags); (void) r; size_t l = strnlen(buf, size); ohex(buf, l); oprintf(" %d", l < (size_t) size ? 1 : 0); free(buf);
 }
 
+/* ARR fmt size hex-of-little-endian-element-images : SCPI_ResultArrayUInt8/16/32/64 on a fresh item context */
+static void run_arr(char *line) {
+    int fmt, size; static char hx[1 << 16]; hx[0] = 0; sscanf(line, "ARR %d %d %65535s", &fmt, &size, hx);
+    unsigned char *raw = malloc(strlen(hx) / 2 + 1); size_t nb = hx[0] == '-' ? 0 : unhex(hx, raw); size_t n = nb / size;
+    void *arr = exact(raw, nb); ginit();
+    if (size == 1) SCPI_ResultArrayUInt8(&gctx, arr, n, fmt); else if (size == 2) SCPI_ResultArrayUInt16(&gctx, arr, n, fmt);
+    else if (size == 4) SCPI_ResultArrayUInt32(&gctx, arr, n, fmt); else SCPI_ResultArrayUInt64(&gctx, arr, n, fmt);
+    oput("ARR ", 4); ohex(wbuf, wl); wl = 0; oprintf(" %d", (int) gctx.output_count); free(arr); free(raw);
+}
+
 /* ------------------------------------------------------------------ expressions (kind EXPR) */
 static int n170;
 static int cb_error170(scpi_t *c, int_fast16_t e) { (void) c; if (e == -170) n170++; return 0; }
@@ -450,6 +460,7 @@ int main(void) {
         else if (!strncmp(line, "N2S ", 4)) run_n2s(line);
         else if (!strncmp(line, "DTOSTRE ", 8)) run_dtostre(line);
         else if (!strncmp(line, "EXPR ", 5)) run_expr(line);
+        else if (!strncmp(line, "ARR ", 4)) run_arr(line);
         else oput("?", 1);
         alarm(0); oend();
     }
